@@ -380,7 +380,7 @@ def run(ck: core.Check):
         "correspondence": dict(stats),
         "operators_without_an_accepted_call": starved,
         "operators_never_rejected": never_rej,
-        "per_operator": {k: dict(v) for k, v in sorted(per_op.items()) if not by_key[k].shared_with},
+        "per_operator": {k: " ".join(f"{a}={n}" for a, n in sorted(v.items())) for k, v in sorted(per_op.items()) if not by_key[k].shared_with},
     })
     ck.exhaustive = False
     ck.rule = ("seeded random constructor calls over every (module, operator) pair: 40 (quick) / 1000 (thorough) per distinct node "
